@@ -160,9 +160,8 @@ theorem popTheme_pushTheme (st st' : Stack σ) (t : Theme σ) (i : Bool) (h : st
   have hlen : ¬ (st.entries ++ [if i then dupdate st.bound t.styles else t.styles]).length = 1 := by
     have : 0 < st.entries.length := List.length_pos_iff.2 hne
     simp; omega
-  simp only [hlen, if_false, List.isEmpty_append, List.isEmpty_cons, Bool.and_false, Bool.false_eq_true,
-    List.dropLast_concat]
-  rw [show st.entries.getLast? = some st.bound from h]
+  have hg : st.entries.getLast? = some st.bound := h
+  simp [hg, hne]
 
 theorem popTheme_wf (st st' : Stack σ) (hp : popTheme st = .ok st') : st'.WF := by
   unfold popTheme at hp
@@ -171,7 +170,7 @@ theorem popTheme_wf (st st' : Stack σ) (hp : popTheme st = .ok st') : st'.WF :=
   · simp only [h1, if_false] at hp
     by_cases h2 : st.entries.isEmpty = true
     · simp [h2] at hp
-    · simp only [h2, if_false] at hp
+    · simp only [h2] at hp
       cases hg : st.entries.dropLast.getLast? with
       | none => simp [hg] at hp
       | some top =>
@@ -188,7 +187,7 @@ theorem popTheme_head (st st' : Stack σ) (hp : popTheme st = .ok st') :
   · simp only [h1, if_false] at hp
     by_cases h2 : st.entries.isEmpty = true
     · simp [h2] at hp
-    · simp only [h2, if_false] at hp
+    · simp only [h2] at hp
       cases hg : st.entries.dropLast.getLast? with
       | none => simp [hg] at hp
       | some top =>
@@ -247,7 +246,7 @@ def stackOf (base : Dict σ) (fs : List (Frame σ)) : Stack σ := ⟨entriesOf b
 
 theorem entriesOf_getLast (base : Dict σ) (fs : List (Frame σ)) :
     (entriesOf base fs).getLast? = some (topOf base fs) := by
-  cases fs <;> simp [entriesOf]
+  cases fs <;> simp [entriesOf, topOf]
 
 theorem entriesOf_length (base : Dict σ) (fs : List (Frame σ)) :
     (entriesOf base fs).length = fs.length + 1 := by
@@ -343,8 +342,8 @@ theorem runOp_refines (base : Dict σ) : ∀ (op : Op σ) (fs : List (Frame σ))
     have ih := runOps_refines base body (⟨t.styles, i⟩ :: fs)
     simp only [runOp, ctxEnter, Bool.false_eq_true, if_false, pushTheme_stackOf, ih, specOp, ctxExit]
     cases hs : (specOps body (⟨t.styles, i⟩ :: fs)).1 with
-    | nil => simp [hs, popTheme_stackOf_nil]
-    | cons f r => simp [hs, popTheme_stackOf_cons]
+    | nil => simp [popTheme_stackOf_nil]
+    | cons f r => simp [popTheme_stackOf_cons]
 theorem runOps_refines (base : Dict σ) : ∀ (ops : List (Op σ)) (fs : List (Frame σ)),
     runOps false ops (stackOf base fs) = (stackOf base (specOps ops fs).1, (specOps ops fs).2)
   | [], fs => by simp [runOps, specOps]
